@@ -119,6 +119,9 @@ pub trait Inst {
     fn guts(&mut self, field: &str) -> String;
     fn cfg(&mut self) -> String;
     fn poke(&mut self);
+    fn feed_inner(&mut self, a: &[Val]) -> String;
+    fn fresh_cfg(&self) -> Option<Box<dyn Inst>>;
+    fn state_from_inst(&mut self, other: &dyn Inst) -> bool;
     fn reset(self: Box<Self>) -> Box<dyn Inst>;
     fn clone_box(&self) -> Box<dyn Inst>;
     fn gutsrt(&self) -> Box<dyn Inst>;
@@ -146,6 +149,26 @@ pub trait FK: Clone + 'static {
     /// borrow the state through `StateMut::state_mut` and do nothing with it: the only way to look at a live filter's
     /// state; it must leave the filter exactly as it was
     fn poke_(&mut self) {}
+    /// overwrite this instance's state in place, through `StateMut::state_mut`, with a copy of `o`'s state (kinds
+    /// without `StateMut`: `clone_from`)
+    fn state_from_(&mut self, o: &Self) {
+        Clone::clone_from(self, o)
+    }
+    /// a new instance built from the configuration this one hands out: `with_config(self.config())` (kinds that have a
+    /// configuration and the accessor)
+    fn fresh_cfg_(&self) -> Option<Self> {
+        None
+    }
+    /// (for the cache wrapper) feed the WRAPPED filter directly, not through the wrapper
+    fn feed_inner_(&mut self, _a: &[Val]) -> String {
+        "unsupported".to_string()
+    }
+    /// borrow the state of a cache wrapper around this kind through `StateMut::state_mut`
+    fn poke_cache(_c: &mut Cache<Self, <Self as IO>::Out>)
+    where
+        Self: IO,
+    {
+    }
 }
 
 impl<K: FK> Inst for K {
@@ -163,6 +186,21 @@ impl<K: FK> Inst for K {
     }
     fn poke(&mut self) {
         self.poke_()
+    }
+    fn feed_inner(&mut self, a: &[Val]) -> String {
+        self.feed_inner_(a)
+    }
+    fn fresh_cfg(&self) -> Option<Box<dyn Inst>> {
+        self.fresh_cfg_().map(|f| Box::new(f) as Box<dyn Inst>)
+    }
+    fn state_from_inst(&mut self, other: &dyn Inst) -> bool {
+        match other.as_any().downcast_ref::<K>() {
+            Some(o) => {
+                self.state_from_(o);
+                true
+            }
+            None => false,
+        }
     }
     fn reset(self: Box<Self>) -> Box<dyn Inst> {
         Box::new((*self).rst())
@@ -215,6 +253,14 @@ macro_rules! fk {
             fk_common!($in);
             fn poke_(&mut self) {
                 let _ = unsafe { StateMut::state_mut(self) };
+            }
+            fn poke_cache(c: &mut Cache<Self, <Self as IO>::Out>) {
+                let _ = unsafe { StateMut::state_mut(c) };
+            }
+            fn state_from_(&mut self, o: &Self) {
+                let mut src = o.clone();
+                let st = unsafe { StateMut::state_mut(&mut src) }.clone();
+                unsafe { *StateMut::state_mut(self) = st; }
             }
             $($extra)*
         }
@@ -299,6 +345,7 @@ fk!([const N: usize] Bounds<Q, N>, Q => (Q, Q) {});
 macro_rules! small_int_fk {
     ($t:ty) => {
         median_fk!($t);
+        mean_fk!($t);
         fk!([const N: usize] Max<$t, N>, $t => $t {});
         fk!([const N: usize] Min<$t, N>, $t => $t {});
         fk!([const N: usize] Bounds<$t, N>, $t => ($t, $t) {});
@@ -324,6 +371,9 @@ macro_rules! conv_fk {
             }
             fn cfg_(&mut self) -> String {
                 cfg_both!(self, c => render_list(c.coefficients.iter()))
+            }
+            fn fresh_cfg_(&self) -> Option<Self> {
+                Some(<Self as WithConfig>::with_config(ConfigClone::config(self)))
             }
         });
     };
@@ -418,6 +468,9 @@ impl FK for Kalman<Q> {
     fn cfg_(&mut self) -> String {
         cfg_both!(self, c => format!("{} {} {} {} {}", c.r.r(), c.q.r(), c.a.r(), c.b.r(), c.c.r()))
     }
+    fn fresh_cfg_(&self) -> Option<Self> {
+        Some(<Self as WithConfig>::with_config(ConfigClone::config(self)))
+    }
 }
 
 fk!([] AlphaBeta<Q>, Q => Q {
@@ -432,6 +485,9 @@ fk!([] AlphaBeta<Q>, Q => Q {
     fn cfg_(&mut self) -> String {
         cfg_both!(self, c => format!("{} {}", c.alpha.r(), c.beta.r()))
     }
+    fn fresh_cfg_(&self) -> Option<Self> {
+        Some(<Self as WithConfig>::with_config(ConfigClone::config(self)))
+    }
 });
 fk!([] Ema<Q>, Q => Q {
     fn guts_(&mut self, field: &str) -> String {
@@ -440,6 +496,9 @@ fk!([] Ema<Q>, Q => Q {
     }
     fn cfg_(&mut self) -> String {
         cfg_both!(self, c => c.inverse_width.r())
+    }
+    fn fresh_cfg_(&self) -> Option<Self> {
+        Some(<Self as WithConfig>::with_config(ConfigClone::config(self)))
     }
 });
 fk!([] Emed<Q>, Q => Q {
@@ -450,10 +509,16 @@ fk!([] Emed<Q>, Q => Q {
     fn cfg_(&mut self) -> String {
         cfg_both!(self, c => format!("{} {} {}", c.pre.inverse_width.r(), c.mid.r(), c.post.inverse_width.r()))
     }
+    fn fresh_cfg_(&self) -> Option<Self> {
+        Some(<Self as WithConfig>::with_config(ConfigClone::config(self)))
+    }
 });
 fk!([] Emv<Q>, Q => signalo_filters::mean::exp::mean_variance::Output<Q> {
     fn cfg_(&mut self) -> String {
         cfg_both!(self, c => c.inverse_width.r())
+    }
+    fn fresh_cfg_(&self) -> Option<Self> {
+        Some(<Self as WithConfig>::with_config(ConfigClone::config(self)))
     }
 });
 
@@ -479,6 +544,9 @@ macro_rules! classify_fk {
             fn cfg_(&mut self) -> String {
                 cfg_both!(self, c => format!("{} {}", c.threshold.r(), render_list(c.outputs.iter())))
             }
+            fn fresh_cfg_(&self) -> Option<Self> {
+                Some(<Self as WithConfig>::with_config(ConfigClone::config(self)))
+            }
         });
         fk!([] Schmitt<$t, Q>, $t => Q {
             fn guts_(&mut self, field: &str) -> String {
@@ -487,6 +555,9 @@ macro_rules! classify_fk {
             }
             fn cfg_(&mut self) -> String {
                 cfg_both!(self, c => format!("{} {} {}", c.thresholds[0].r(), c.thresholds[1].r(), render_list(c.outputs.iter())))
+            }
+            fn fresh_cfg_(&self) -> Option<Self> {
+                Some(<Self as WithConfig>::with_config(ConfigClone::config(self)))
             }
         });
         fk!([] Slopes<$t, Q>, $t => Q {
@@ -497,10 +568,16 @@ macro_rules! classify_fk {
             fn cfg_(&mut self) -> String {
                 cfg_both!(self, c => render_list(c.outputs.iter()))
             }
+            fn fresh_cfg_(&self) -> Option<Self> {
+                Some(<Self as WithConfig>::with_config(ConfigClone::config(self)))
+            }
         });
         fk!([] Peaks<$t, Q>, $t => Q {
             fn cfg_(&mut self) -> String {
                 cfg_both!(self, c => render_list(c.outputs.iter()))
+            }
+            fn fresh_cfg_(&self) -> Option<Self> {
+                Some(<Self as WithConfig>::with_config(ConfigClone::config(self)))
             }
         });
     };
@@ -517,10 +594,16 @@ fk!([] Debounce<Q, Q>, Q => Q {
     fn cfg_(&mut self) -> String {
         cfg_both!(self, c => format!("{} {} {}", c.threshold, c.predicate.r(), render_list(c.outputs.iter())))
     }
+    fn fresh_cfg_(&self) -> Option<Self> {
+        Some(<Self as WithConfig>::with_config(ConfigClone::config(self)))
+    }
 });
 fk!([] Peaks<Slope, Q>, Slope => Q {
     fn cfg_(&mut self) -> String {
         cfg_both!(self, c => render_list(c.outputs.iter()))
+    }
+    fn fresh_cfg_(&self) -> Option<Self> {
+        Some(<Self as WithConfig>::with_config(ConfigClone::config(self)))
     }
 });
 
@@ -557,6 +640,17 @@ where
     }
     fn gutsrt_(&self) -> Self {
         FromGuts::from_guts(IntoGuts::into_guts(self.clone()))
+    }
+    fn poke_(&mut self) {
+        K::poke_cache(self)
+    }
+    /// the wrapper taken apart, its inner filter fed directly, and put together again (`into_guts` / `from_guts`): the
+    /// remembered value is untouched, the inner filter has a history the wrapper did not see
+    fn feed_inner_(&mut self, a: &[Val]) -> String {
+        let mut g = self.clone().into_guts();
+        let r = g.inner.filt(a);
+        *self = FromGuts::from_guts(g);
+        r
     }
     fn acc_(&self, which: &str) -> String {
         match which {
@@ -690,6 +784,10 @@ macro_rules! build_float_kind {
             "sg" => Some(with_w!(kv_n($kv, "W"), N => Box::new(Convolve::<$t, N>::savitzky_golay()) as Box<dyn Inst>)),
             "daub_analyze" => Some(with_order!(kv_n($kv, "O"), N => Box::new(Analyze::<$t, N>::daubechies()) as Box<dyn Inst>)),
             "daub_synth" => Some(with_order!(kv_n($kv, "O"), N => Box::new(Synthesize::<$t, N>::daubechies()) as Box<dyn Inst>)),
+            "convolve_norm" => {
+                let c: Vec<$t> = parse_vals(kv_str($kv, "c")).into_iter().map(<$t>::from_val).collect();
+                Some(with_n!(c.len(), N => Box::new(Convolve::<$t, N>::normalized(ConvolveConfig { coefficients: arr(c) })) as Box<dyn Inst>))
+            }
             "ema" => Some(Box::new(Ema::<$t>::with_config(EmaConfig { inverse_width: <$t>::from_val(parse_val(kv_str($kv, "w"))) })) as Box<dyn Inst>),
             "emedian" => Some(Box::new(Emed::<$t>::with_config(EmedConfig {
                 pre: EmaConfig { inverse_width: <$t>::from_val(parse_val(kv_str($kv, "pre"))) },
@@ -869,6 +967,15 @@ fn build_inner(kind: &str, kv: &KV, wrap: Option<&str>) -> Box<dyn Inst> {
         ("median", "bl") => with_n!(kv_n(kv, "N"), N => finish(Median::<Bl, N>::default(), wrap)),
         ("median", "fz") => with_n!(kv_n(kv, "N"), N => finish(Median::<Fz, N>::default(), wrap)),
         ("mean", "q") => with_n!(kv_n(kv, "N"), N => finish_q(Mean::<Q, N>::default(), wrap)),
+        // (the widest window whose weight the type can count: N = MAX)
+        ("mean", "u8") => match kv_n(kv, "N") {
+            255 => finish(Mean::<u8, 255>::default(), wrap),
+            n => with_n!(n, N => finish(Mean::<u8, N>::default(), wrap)),
+        },
+        ("mean", "i8") => match kv_n(kv, "N") {
+            127 => finish(Mean::<i8, 127>::default(), wrap),
+            n => with_n!(n, N => finish(Mean::<i8, N>::default(), wrap)),
+        },
         ("mean", "i64") => with_n!(kv_n(kv, "N"), N => finish(Mean::<i64, N>::default(), wrap)),
         ("convolve", "i64") | ("convolve_norm", "i64") => {
             let c: Vec<i64> = parse_vals(kv_str(kv, "c")).into_iter().map(i64::from_val).collect();
@@ -884,6 +991,10 @@ fn build_inner(kind: &str, kv: &KV, wrap: Option<&str>) -> Box<dyn Inst> {
         ("min", "tracked") => with_n!(kv_n(kv, "N"), N => finish(Min::<Tracked, N>::default(), wrap)),
         ("bounds", "tracked") => with_n!(kv_n(kv, "N"), N => finish(Bounds::<Tracked, N>::default(), wrap)),
         ("delay", "tracked") => with_n!(kv_n(kv, "N"), N => finish(Delay::<Tracked, N>::default(), wrap)),
+        ("convolve_norm", "tracked") => {
+            let c: Vec<Tracked> = kv_qs(kv, "c").into_iter().map(Tracked::new).collect();
+            with_n!(c.len(), N => finish(Convolve::<Tracked, N>::normalized(ConvolveConfig { coefficients: arr(c) }), wrap))
+        }
         ("convolve", "tracked") => {
             let c: Vec<Tracked> = kv_qs(kv, "c").into_iter().map(Tracked::new).collect();
             with_n!(c.len(), N => finish(Convolve::<Tracked, N>::with_config(ConvolveConfig { coefficients: arr(c) }), wrap))
@@ -1039,9 +1150,38 @@ macro_rules! inj_s {
     }};
 }
 
+fn kv_oslope(kv: &KV, k: &str) -> Option<Slope> {
+    match kv_str(kv, k) {
+        "none" => None,
+        v => Some(Slope::from_val(parse_val(v))),
+    }
+}
+/// the public state of a peak detector, put together by hand: the nested slope filter with the sample it memorises,
+/// and the detector's own "current slope"
+fn peaks_state<T>(mem: Option<T>, slope: Option<Slope>) -> signalo_filters::classify::peaks::State<T> {
+    use signalo_filters::classify::Classification;
+    let slopes = Slopes::from_guts((
+        SlopesConfig { outputs: Slope::classes() },
+        signalo_filters::classify::slopes::State { input: mem },
+    ));
+    signalo_filters::classify::peaks::State { slopes, slope }
+}
+
 pub fn inject(kind: &str, kv: &KV) -> Box<dyn Inst> {
     use circular_buffer::CircularBuffer;
     match kind {
+        "peaks_slopes" => {
+            let st = peaks_state::<Slope>(kv_oslope(kv, "mem"), kv_oslope(kv, "prev"));
+            inj_cs!(kv, Peaks::<Slope, Q>, PeaksConfig { outputs: out3(kv) }, st)
+        }
+        "peaks" => {
+            let st = peaks_state::<Q>(kv_oq(kv, "prev"), kv_oslope(kv, "slope"));
+            inj_cs!(kv, Peaks::<Q, Q>, PeaksConfig { outputs: out3(kv) }, st)
+        }
+        "slopes" => {
+            let st = signalo_filters::classify::slopes::State { input: kv_oq(kv, "input") };
+            inj_cs!(kv, Slopes::<Q, Q>, SlopesConfig { outputs: out3(kv) }, st)
+        }
         "convolve" if kv.get("T").map(|s| s.as_str()) == Some("tracked") => {
             let c: Vec<Tracked> = kv_qs(kv, "c").into_iter().map(Tracked::new).collect();
             with_n!(c.len(), N => {
